@@ -23,6 +23,11 @@ LEVEL = "proof"
 CHECKER = ("fun c => match c with (e, ds, lin, quad) => "
            "forallb (fun d => opt_eqb Nat.eqb (degree e) d) ds && Bool.eqb (is_linear e) lin "
            "&& Bool.eqb (is_quadratic e) quad end")
+# expressions holding NumPy-typed constants: optyx (soundly) answers None for them where the model, which does not distinguish a
+# NumPy 2 from a Python 2, computes a degree - accepted; any finite answer must still be the model's
+LENIENT_CHECKER = ("fun c => match c with (e, ds, lin, quad) => "
+                   "forallb (fun d => match d with None => true | Some _ => opt_eqb Nat.eqb (degree e) d end) ds "
+                   "&& implb lin (is_linear e) && implb quad (is_quadratic e) end")
 CHAIN_CHECKER = ("fun c => match c with (a, o, ts, ds, lin) => "
                  "forallb (fun d => opt_eqb Nat.eqb (degree (chain a o ts)) d) ds "
                  "&& Bool.eqb (is_linear (chain a o ts)) lin end")
@@ -43,6 +48,26 @@ def observe(e):
     finally:
         A._RECURSION_THRESHOLD = old
     return obs, bool(A.is_linear(e)), bool(A.is_quadratic(e))
+
+
+def preclassify(e):
+    """A user exploring a model bottom-up: every sub-expression is asked for its degree / linearity BEFORE the whole is."""
+    import optyx.analysis as A
+    from optyx.core.expressions import BinaryOp, UnaryOp
+    order, stack = [], [e]
+    while stack and len(order) < 200:
+        t = stack.pop()
+        order.append(t)
+        if isinstance(t, BinaryOp):
+            stack += [t.left, t.right]
+        elif isinstance(t, UnaryOp):
+            stack.append(t.operand)
+    for t in reversed(order[1:]):
+        try:
+            t.degree
+            A.is_linear(t)
+        except Exception:
+            pass
 
 
 def malformed(obs):
@@ -114,6 +139,9 @@ def run(rep: vk.Report):
     n_main, n_corner, n_deep = (500, 400, 14) if rep.tier == "quick" else (20000, 20000, 60)
     rng = common.rng_for(rep.seed, "C04")
     cases = Cases("degree", "Degree", "expr * list (option nat) * bool * bool", CHECKER)
+    lenient = Cases("degree-numpy-typed", "Degree", "expr * list (option nat) * bool * bool", LENIENT_CHECKER)
+    lenient_exprs = []
+    pre_count = [0]
     exprs = []
     unsupported = 0
     hits = {}
@@ -121,6 +149,10 @@ def run(rep: vk.Report):
         for f in ("poly", "all"):
             for g, e in common.corpus(rng, rep.tier, 0, focus_profile=f):
                 yield g, e, "focused"
+        # NumPy scalar types and 0-d arrays as exponents / factors / offsets
+        for g, e in common.corpus(rng, rep.tier, 120, focus_profile="all", gen_flags={"numpy_scalars": True}, depths=(2, 3),
+                                  want=["i64", "arr(", "f32", "f16"]):
+            yield g, e, "numpy-typed"
         for i in range(n_main + n_corner):
             g = gen.Gen(random.Random(rng.random()), profile=rng.choice(["poly", "poly", "smooth", "all"]))
             try:
@@ -136,6 +168,9 @@ def run(rep: vk.Report):
         except ser.Unsupported:
             unsupported += 1
             continue
+        if rng.random() < 0.4:
+            preclassify(e)
+            pre_count[0] += 1
         obs, lin, quad = observe(e)
         if malformed(obs):
             rep.violation({"kind": "correspondence", "obligation": "a reported degree is None or a natural number",
@@ -144,10 +179,16 @@ def run(rep: vk.Report):
             continue
         for k, v in g.hits.items():
             hits[k] = hits.get(k, 0) + v
+        if common.has_numpy_constant(e):
+            lenient.add(f"({t}, {ser.lst(ser.opt_nat(d) for d in obs)}, {str(lin).lower()}, {str(quad).lower()})",
+                        {"obs": obs, "lin": lin, "quad": quad, "stream": stream})
+            lenient_exprs.append(e)
+            continue
         cases.add(f"({t}, {ser.lst(ser.opt_nat(d) for d in obs)}, {str(lin).lower()}, {str(quad).lower()})",
                   {"obs": obs, "lin": lin, "quad": quad, "stream": stream})
         exprs.append(e)
     fails = cases.run()
+    lfails = lenient.run() if lenient.terms else []
 
     # deep chains: built term by term in Python, rebuilt by the model from the term list
     deep = Cases("degree-deep", "Degree", "nat * bop * list expr * list (option nat) * bool", CHAIN_CHECKER,
@@ -182,12 +223,13 @@ def run(rep: vk.Report):
     deep_fails = deep.run(shard=2)
 
     # ---- adjudicate
-    for idx, (cs, es) in [(i, (cases, exprs)) for i in fails] + [(i, (deep, deep_exprs)) for i in deep_fails]:
+    for idx, (cs, es) in ([(i, (cases, exprs)) for i in fails] + [(i, (lenient, lenient_exprs)) for i in lfails]
+                          + [(i, (deep, deep_exprs)) for i in deep_fails]):
         e = es[idx]
         meta = cs.meta[idx]
         model = cs.model_answer(idx, lambda term: "let c := " + term + " in " +
-                                ("degree (fst (fst (fst c)))" if cs is cases else
-                                 "match c with (a, o, ts, _, _) => degree (chain a o ts) end")) if cs is cases or meta["n"] <= 900 else "<deep>"
+                                ("degree (fst (fst (fst c)))" if cs is not deep else
+                                 "match c with (a, o, ts, _, _) => degree (chain a o ts) end")) if cs is not deep or meta["n"] <= 900 else "<deep>"
         finite = [d for d in meta["obs"] if d is not None]
         witness = None
         for d in sorted(set(finite)):
@@ -200,7 +242,9 @@ def run(rep: vk.Report):
                        "witness": witness, "expr_repr": repr(e)[:500]}, concrete=witness is not None)
 
     cov = rep.coverage
-    cov["evaluations"] = len(cases.terms) + len(deep.terms)
+    cov["evaluations"] = len(cases.terms) + len(deep.terms) + len(lenient.terms)
+    cov["numpy_typed_constant_cases"] = len(lenient.terms)
+    cov["classified_bottom_up_first"] = pre_count[0]
     cov["distinct_nontrivial"] = cases.nontrivial + deep.nontrivial
     cov["rule"] = ("API-built expressions from the seeded generator (profiles poly/smooth/all), a corner stream "
                    "(vector nodes over non-polynomial elements, non-natural vector powers, constant-valued factors) "
@@ -210,7 +254,7 @@ def run(rep: vk.Report):
     cov["deep_chains"] = [dict(m, obs=str(m["obs"])) for m in deep.meta]
     cov["generator_hits"] = dict(sorted(hits.items()))
     cov["unsupported_by_serialiser"] = unsupported
-    cov["correspondence_failures"] = len(fails) + len(deep_fails)
+    cov["correspondence_failures"] = len(fails) + len(deep_fails) + len(lfails)
     cov["traces_validated_against_impl"] = cov["evaluations"]
     cov["finite_degree_cases"] = sum(1 for m in cases.meta if m["obs"][0] is not None)
     cov["linear_cases"] = sum(1 for m in cases.meta if m["lin"])
